@@ -3,6 +3,7 @@ CONSTANTS
   MaxOps = 2
   Deviations <- DevOverUnread
   JunkBytes <- MCJunk
+  RegistryOps = FALSE
 CHECK_DEADLOCK FALSE
 VIEW ViewNoHist
 INVARIANT FramesRight
